@@ -9,6 +9,10 @@ int h_sstr_tail(unsigned long* position, int base, bool parsingBinary) {
     std::string tmp;
     return sstr_tail(tmp, (std::size_t*)position, base, parsingBinary);
 }
+float h_fstr(unsigned long* position) {
+    std::string str;
+    return fstr_body(str, (std::size_t*)position);
+}
 unsigned h_readRamUnsigned(unsigned long* charactersRead, unsigned long element_size) {
     std::string element;
     element.n = element_size;
